@@ -28,6 +28,15 @@ def plant_at(node, kind, rnd, t):
         node.add_child(Node("zzUnknownChild"), index=rnd.randint(0, len(node.children)))
     elif kind == 2:
         node.add_attribute("zzBadAttr", "v")
+    elif kind == 5:
+        # an unknown element whose name LOOKS like "metadata" (substring, prefix, other case, padded) with invalid nodes below it:
+        # it is not a metadata element, so what is below it counts
+        j = Node(rnd.choice(["data", "meta", "a", "", "metadat", "etadata", "Metadata", "metadata ", "x:metadata", "additionalMetadata2"]))
+        j.add_child(Node("pubDate", content="not a date"))
+        k = Node("individualName")
+        k.add_child(Node("zzDeep"))
+        j.add_child(k)
+        node.add_child(j, index=rnd.randint(0, len(node.children)))
     elif kind == 4:
         node.content = "lone\ud800surrogate"          # not Unicode text; whatever validate.node says of it, validate.tree must say too
     else:
@@ -197,11 +206,11 @@ def run(rep, tier, seed):
     if base_seed is None:
         raise MachineryError("could not generate a valid ~40-node base tree")
     G.update(t=t, base_el=base_el, base_seed=base_seed)
-    jobs = [(seed + i, [i], [k]) for i in range(size) for k in range(5)]
+    jobs = [(seed + i, [i], [k]) for i in range(size) for k in range(6)]
     pairs = [(i, j) for i in range(size) for j in range(i + 1, size)]
     if tier == "quick":
         pairs = rnd.sample(pairs, min(len(pairs), 250))
-    jobs += [(seed + 7 * i + j, [i, j], [rnd.randrange(5), rnd.randrange(5)]) for (i, j) in pairs]
+    jobs += [(seed + 7 * i + j, [i, j], [rnd.randrange(6), rnd.randrange(6)]) for (i, j) in pairs]
     evs = [e for chunk in parallel(w_systematic, jobs) for e in chunk]
     nrand = 300 if tier == "quick" else 6000
     bad_bases = []
